@@ -850,7 +850,12 @@ class QueryBuilder(Selectable, Term):
         self._insert_table = new_table if self._insert_table == current_table else self._insert_table
         self._update_table = new_table if self._update_table == current_table else self._update_table
 
-        self._with = [alias_query.replace_table(current_table, new_table) for alias_query in self._with]
+        self._with = [
+            AliasedQuery(alias_query.name, alias_query.query.replace_table(current_table, new_table))
+            if isinstance(alias_query.query, Term)
+            else alias_query
+            for alias_query in self._with
+        ]
         self._selects = [select.replace_table(current_table, new_table) for select in self._selects]
         self._columns = [column.replace_table(current_table, new_table) for column in self._columns]
         self._values = [
@@ -865,6 +870,10 @@ class QueryBuilder(Selectable, Term):
             (orderby[0].replace_table(current_table, new_table), orderby[1]) for orderby in self._orderbys
         ]
         self._joins = [join.replace_table(current_table, new_table) for join in self._joins]
+        self._updates = [
+            (field.replace_table(current_table, new_table), value.replace_table(current_table, new_table))
+            for field, value in self._updates
+        ]
 
         if current_table in self._select_star_tables:
             self._select_star_tables.remove(current_table)
@@ -1712,7 +1721,7 @@ class Join:
         :return:
             A copy of the join with the tables replaced.
         """
-        self.item = self.item.replace_table(current_table, new_table)
+        self.item = new_table if self.item == current_table else self.item
 
 
 class JoinOn(Join):
